@@ -101,4 +101,14 @@ func init() {
 		"[mro != nil] LOOP(range mro){[!(has(base.Dict[name]))]   | [has(base.Dict[name])]  break} -> after-loop",
 		"[mro == nil]  -> nil",
 	}
+	// range equality compares the sequences the ranges denote: different lengths differ; empty ranges are equal; then the first items must agree; a range of one item needs nothing more; otherwise the steps must agree [rangeobject.c range_equals]  []
+	pathSpec["py|Range.M__eq__"] = []string{
+		"[!(other.(*Range))]  -> NotImplemented, nil",
+		"[other.(*Range) && a.Length != b.Length]  -> False, nil",
+		"[other.(*Range) && a.Length == b.Length && a.Length == 0]  -> True, nil",
+		"[other.(*Range) && a.Length == b.Length && a.Start != b.Start]  -> False, nil",
+		"[other.(*Range) && a.Length == b.Length && a.Start == b.Start && a.Length == 1]  -> True, nil",
+		"[other.(*Range) && a.Length == b.Length && a.Start == b.Start && a.Step != b.Step]  -> False, nil",
+		"[other.(*Range) && a.Length == b.Length && a.Start == b.Start && a.Step == b.Step]  -> True, nil",
+	}
 }
